@@ -341,3 +341,32 @@ def fn_evaluator(environment, learner):
         r = interaction["rewards"](a)
         lrn.learn(interaction["context"], a, r, p, **kw)
         yield {"k": k, "reward": r, "seed": CobaContext.store.get("experiment_seed")}
+
+
+
+# ---------------------------------------------------------------- phase 4: components of the `seq` kind
+# Experiments over the BUILT-IN SequentialCB whose Result the Lean model predicts (`seqComps`: Model/C06.evaluate as
+# the evaluation component of Model/C01).  The learner is C06's scripted `RecLearner` (props/c06_learners.py).
+class SeqEnv:
+    """an in-memory environment: C06-format interaction specs (props/c06.py `build_inter`), optionally batched; with
+    `fail` the read raises after the last interaction"""
+
+    def __init__(self, tag, inters, batch=None, fail=False):
+        self.tag, self.inters, self.batch, self.fail = tag, inters, batch, fail
+
+    @property
+    def params(self):
+        return {"env_type": "c01seq", "tag": self.tag}
+
+    def _items(self):
+        from props.c06 import build_inter
+        for p in self.inters:
+            yield build_inter(p, False)
+        if self.fail:
+            raise ToyFail("TOYFAIL:env%d:read" % self.tag)
+
+    def read(self):
+        if self.batch:
+            from coba.environments import Batch
+            return Batch(self.batch).filter(self._items())
+        return self._items()
